@@ -27,8 +27,19 @@
 (* of ONE client; a gun without shared-client never shares a connection;   *)
 (* a failed warm-up starts nothing; a failed call never stops the gun.     *)
 (*                                                                         *)
+(* Transport security and reflection metadata.  cfg.tls: the gun's `tls`   *)
+(* option (TLS without certificate verification), cfg.ttls: what the       *)
+(* servers speak.  cfg.needmd: the reflection endpoint only answers        *)
+(* streams that carry the credentials, cfg.rmd: `reflect_metadata` names   *)
+(* them.  The warm-up succeeds iff the reflection endpoint is reachable,   *)
+(* both sides speak the same transport, and the credentials (if needed)    *)
+(* are sent (Reachable); a run that is configured right STARTS             *)
+(* (StartsWhenConfigured).  reflect_metadata travels with reflection       *)
+(* streams only, never with a load call (trace level).                     *)
+(*                                                                         *)
 (* Negative controls: DialPerShot, PoolIgnored, IgnoreWarmFail,            *)
-(* DieOnFailure.                                                           *)
+(* DieOnFailure, PlainAlways (the `tls` option is ignored), ReflMdDropped  *)
+(* (reflect_metadata is not sent).                                         *)
 (***************************************************************************)
 EXTENDS Integers, FiniteSets, Sequences, TLC
 
@@ -36,9 +47,11 @@ CONSTANTS Guns, MaxShots, MaxFlips,
           DialPerShot,     \* the gun dials a new client for every call
           PoolIgnored,     \* shared-client is configured but every gun dials its own client
           IgnoreWarmFail,  \* the run goes on although reflection failed
-          DieOnFailure     \* a gun whose call failed stops shooting
+          DieOnFailure,    \* a gun whose call failed stops shooting
+          PlainAlways,     \* the gun dials plaintext whatever `tls` says
+          ReflMdDropped    \* the reflection client does not send reflect_metadata
 
-VARIABLES cfg,      \* [shared, k, refl : reflection endpoint reachable]
+VARIABLES cfg,      \* [shared, k, refl : reflection endpoint reachable, tls, ttls, needmd, rmd]
           phase,    \* init | warm | failed
           tgt,      \* up | down
           clients,  \* clients dialled so far (1..n)
@@ -67,14 +80,21 @@ InitWith(c) ==
     /\ gconn = [g \in Guns |-> {}]
     /\ dead = {} /\ shots = 0 /\ flips = 0
 
+\* what the configuration promises: the reflection endpoint answers the warm-up gun
+Configured == cfg.refl /\ cfg.tls = cfg.ttls /\ (cfg.needmd => cfg.rmd)
+\* what the (modelled) gun achieves
+Reachable == /\ cfg.refl
+             /\ (IF PlainAlways THEN FALSE ELSE cfg.tls) = cfg.ttls
+             /\ cfg.needmd => (cfg.rmd /\ ~ReflMdDropped)
+
 WarmOK ==
-    /\ phase = "init" /\ (cfg.refl \/ IgnoreWarmFail)
+    /\ phase = "init" /\ (Reachable \/ IgnoreWarmFail)
     /\ phase' = "warm"
     /\ clients' = IF cfg.shared /\ ~PoolIgnored THEN 1..cfg.k ELSE {}
     /\ UNCHANGED <<cfg, tgt, rr, cof, live, nconn, owner, sh, gconn, dead, shots, flips>>
 
 WarmFail ==
-    /\ phase = "init" /\ ~cfg.refl /\ ~IgnoreWarmFail
+    /\ phase = "init" /\ ~Reachable /\ ~IgnoreWarmFail
     /\ phase' = "failed"
     /\ UNCHANGED <<cfg, tgt, clients, rr, cof, live, nconn, owner, sh, gconn, dead, shots, flips>>
 
@@ -156,7 +176,9 @@ GunSticks == \A g \in Guns : Cardinality({owner[n] : n \in gconn[g]}) <= 1
 \* without shared-client no two guns ever use one connection
 OwnConn == ~cfg.shared => \A g, h \in Guns : g # h => gconn[g] \cap gconn[h] = {}
 \* reflection failed: nothing is started
-NothingAfterWarmFail == ~cfg.refl => (\A g \in Guns : cof[g] = 0) /\ shots = 0
+NothingAfterWarmFail == ~Configured => (\A g \in Guns : cof[g] = 0) /\ shots = 0
+\* a run whose configuration is right starts
+StartsWhenConfigured == (phase = "init" /\ Configured) => ENABLED WarmOK
 \* a failed call never stops a gun
 KeepsShooting == dead = {}
 =============================================================================
